@@ -3,7 +3,8 @@ import os, re
 
 from . import pref
 
-TAINT_FRAMES = 260          # after a stall the backlog (socket buffer + daemon queue) may end in a gap this many frames later
+TAINT_FRAMES = 450          # after a stall the backlog (the daemon's send buffer, 212992 bytes / >= 704 bytes of skb per message,
+                            # plus the daemon queue) may end in a gap this many frames later
 DISC_GRACE = 2.0            # s the daemon may take to notice a closed connection (union oracle only)
 
 EV_GRANTED, EV_CHANGED, EV_NORM, EV_RECLAIMED = 1, 2, 4, 8
@@ -16,9 +17,10 @@ def san_signature(pid, who, rc, err):
     if m:
         what = re.sub(r'-?\d[\dxa-fA-F]*', 'N', m.group(3))[:60]
         return '%s:%s:ubsan:%s:%s:%s' % (pid, who, os.path.basename(m.group(1)), m.group(2), what.strip().replace(' ', '_'))
-    m = re.search(r'(\S+?):(\d+): (\S+): Assertion `(.*?)\' failed', err)
+    m = re.search(r'(\S+?):(\d+): ([^\n]+?): Assertion `(.*?)\' failed', err)
     if m:
-        return '%s:%s:assert:%s:%s:%s' % (pid, who, os.path.basename(m.group(1)), m.group(3), re.sub(r'\W+', '_', m.group(4))[:50])
+        fn = re.sub(r'\(.*$', '', m.group(3)).split()[-1]
+        return '%s:%s:assert:%s:%s:%s' % (pid, who, os.path.basename(m.group(1)), fn, re.sub(r'\W+', '_', m.group(4))[:50])
     m = None if 'ThreadSanitizer' in err and 'SUMMARY: ThreadSanitizer' in err else \
         re.search(r'(ERROR|WARNING): (AddressSanitizer|ThreadSanitizer|LeakSanitizer): ([\w-]+)', err)
     if m:
@@ -34,10 +36,24 @@ def san_signature(pid, who, rc, err):
         return '%s:%s:%s:%s:%s' % (pid, who, tool, kind, fn)
     m = re.search(r'SUMMARY: ThreadSanitizer: ([\w -]+?) (\S+?):(\d+)(?::\d+)? in (\S*)', err)
     if m:
-        return '%s:%s:tsan:%s:%s:%s' % (pid, who, m.group(1).strip().replace(' ', '-'), os.path.basename(m.group(2)), m.group(3))
+        return tsan_sig(pid, who, m)
     if 'Sanitizer CHECK failed' in err:
         return '%s:%s:sanitizer-check-failed' % (pid, who)
     return None
+
+
+def tsan_sig(pid, who, m):
+    return '%s:%s:tsan:%s:%s:%s' % (pid, who, m.group(1).strip().replace(' ', '-'), os.path.basename(m.group(2)), m.group(3))
+
+
+def tsan_reports(pid, who, err):
+    """every ThreadSanitizer report of a run (halt_on_error=0): [(signature, text)]"""
+    out = []
+    for blk in re.split(r'^==================\n', err, flags=re.M):
+        m = re.search(r'SUMMARY: ThreadSanitizer: ([\w -]+?) (\S+?):(\d+)(?::\d+)? in (\S*)', blk)
+        if m:
+            out.append((tsan_sig(pid, who, m), blk[-3500:]))
+    return out
 
 
 # ---------------------------------------------------------------------------------------------------------------
@@ -135,15 +151,21 @@ class Judge:
     # -------------------------------------------------------------------------------------------------------
     def judge_processes(self):
         r = self.res
-        sig = san_signature(self.pid, 'daemon', r.get('daemon_rc'), r.get('daemon_err', ''))
+        err = r.get('daemon_err', '')
+        ts = tsan_reports(self.pid, 'daemon', err)
+        for s_, d_ in ts:
+            self.v(s_, d_)
+        rest = re.sub(r'^==================\nWARNING: ThreadSanitizer.*?^==================\n', '', err, flags=re.M | re.S)
+        rest = re.sub(r'^(ThreadSanitizer: reported \d+ warnings|SUMMARY: ThreadSanitizer.*)$', '', rest, flags=re.M)
+        sig = san_signature(self.pid, 'daemon', r.get('daemon_rc'), rest)
         if sig:
-            self.v(sig, r['daemon_err'][-3500:])
+            self.v(sig, rest[-3500:])
         elif not r.get('daemon_alive_at_end', True) and not any('socket' in s for s in self.inconclusive):
-            self.v('%s:daemon:exited:rc=%s' % (self.pid, r.get('daemon_rc')), 'daemon terminated before SIGTERM\n' + r.get('daemon_err', '')[-2000:])
-        elif r.get('daemon_rc') not in (0, None) and r.get('daemon_alive_at_end'):
-            self.v('%s:daemon:exit-status:%s' % (self.pid, r.get('daemon_rc')), r.get('daemon_err', '')[-2000:])
+            self.v('%s:daemon:exited:rc=%s' % (self.pid, r.get('daemon_rc')), 'daemon terminated before SIGTERM\n' + err[-2000:])
+        elif r.get('daemon_rc') not in (0, None) and r.get('daemon_alive_at_end') and not (ts and r.get('daemon_rc') == 97):
+            self.v('%s:daemon:exit-status:%s' % (self.pid, r.get('daemon_rc')), err[-2000:])
         if r.get('daemon_alive_at_end') and r.get('probe_pid') != r.get('daemon_pid'):
-            self.inconclusive.append('daemon alive but did not answer DAEMON_PID_REQ within 3 s (pid %s, got %s)' % (r.get('daemon_pid'), r.get('probe_pid')))
+            self.inconclusive.append('daemon alive but did not answer a connect request within 3 s (pid %s, got %s)' % (r.get('daemon_pid'), r.get('probe_pid')))
         for i, c in enumerate(r['clients']):
             if c['rc'] not in (0, None):
                 s = san_signature(self.pid, 'client', c['rc'], c['err'])
@@ -543,6 +565,10 @@ class Judge:
         self.judge_token()
         P = self.pid
         daemon_dead = not self.res.get('daemon_alive_at_end', True)
+        if daemon_dead:
+            # everything else is a consequence of the daemon's death
+            self.viol = [v for v in self.viol if ':daemon:' in v[0]]
+            return self
         if self.lost_connections and not daemon_dead:
             # a well-behaved client must not lose its connection; fuzz clients cost at most their own
             self.v(P + ':well-behaved-client-lost-connection', '; '.join('%s: %s' % x for x in self.lost_connections))
